@@ -243,7 +243,11 @@ fn run_one(out: &mut dyn Write, line: &str, epoch: &mut u64) {
     clock::new_epoch(*epoch);
     let tsc = c.u64("tsc", 1) != 0;
     if tsc {
+        clock::remove();
         clock::install(freq);
+    } else if c.u64("vos", 0) != 0 {
+        // the OS-timer path on a scripted clock (one tick = 1 ns)
+        clock::install_os();
     } else {
         clock::remove();
     }
